@@ -6,6 +6,7 @@ import (
 	"fmt"
 	"math"
 	"math/rand"
+	"net"
 	"reflect"
 	"strconv"
 	"strings"
@@ -291,6 +292,22 @@ func genBase(r *rand.Rand, t reflect.Type, wholeSecond bool) (reflect.Value, boo
 	case bytesType:
 		if r.Intn(4) != 0 {
 			v.SetBytes(genBytes(r))
+		}
+		return v, true
+	case reflect.TypeOf(net.IP(nil)):
+		switch r.Intn(4) {
+		case 0: // nil
+		case 1:
+			v.Set(reflect.ValueOf(net.IPv4(byte(r.Intn(256)), byte(r.Intn(256)), byte(r.Intn(256)), byte(r.Intn(256)))))
+		default:
+			ip := make(net.IP, 16)
+			for i := range ip {
+				ip[i] = byte(r.Intn(256))
+			}
+			if ip.To4() != nil {
+				ip[0] = 0x20 // keep it a genuine IPv6 address
+			}
+			v.Set(reflect.ValueOf(ip))
 		}
 		return v, true
 	case rawJSONType:
